@@ -40,21 +40,26 @@ SHAPES = {
     "single": dict(nt=1, nl=1, ns=1, prob=True, ens=True),
     "miss": dict(nt=3, nl=3, ns=3, prob=True, ens=True),
     "missfirst": dict(nt=3, nl=3, ns=3, prob=True, ens=True),  # the FIRST lead time (file a) / first location (file b) / first time (file c) is missing
+    "x0noobs": dict(nt=3, nl=3, ns=3, prob=True, ens=True, x0=True),      # variable with a discrete mass at 0; file b has NO observations (borrowed from file a)
     "mixed": dict(nt=3, nl=3, ns=3, prob=True, ens=True),      # file b has only obs and fcst: probabilistic fields exist in one input only
 }
 BIN_TYPES = ["below", "below=", "above", "above=", "within", "=within", "within=", "=within="]
 VARIANTS = [[], ["-r", "0,2,5"], ["-r", "0,2,5", "-b", "within"], ["-agg", "median"], ["-q", "0.1,0.9"], ["-r", "2", "-b", "below="],
             ["-r", "1,3", "-b", "=within="], ["-agg", "0.9", "-r", "0,2,5"], ["-agg", "max", "-r", "0,100,200", "-b", "within"],
-            ["-agg", "range", "-r", "100", "-b", "above"]]
+            ["-agg", "range", "-r", "100", "-b", "above"], ["-r", "3", "-q", "0.5"], ["-r", "5,1"], ["-r", "2", "-q", "0.9,0.1"], ["-q", "0.5"]]
 
 
-def write_file(path, rng, nt, nl, ns, prob, ens, blank=None):
+def write_file(path, rng, nt, nl, ns, prob, ens, blank=None, x0=False, noobs=False):
     hdr = "unixtime leadtime location lat lon altitude obs fcst"
     if prob:
         hdr += " p0 p1 p5 q0.1 q0.5 q0.9 pit"
     if ens:
         hdr += " e0 e1 e2"
+    if noobs:
+        hdr = hdr.replace(" obs", "")
     with open(path, "w") as f:
+        if x0:
+            f.write("# variable: Precip\n# units: mm\n# x0: 0\n")
         f.write(hdr + "\n")
         for t in range(nt):
             for l in range(nl):
@@ -70,6 +75,8 @@ def write_file(path, rng, nt, nl, ns, prob, ens, blank=None):
                         row += [fc + rng.randint(-3, 3) / 2.0 for _ in range(3)]
                     if blank is not None and row[blank[0]] == blank[1]:
                         row[6:] = ["-999"] * (len(row) - 6)
+                    if noobs:
+                        del row[6]
                     f.write(" ".join(str(x) for x in row) + "\n")
 
 
@@ -78,7 +85,7 @@ def make_files(tmp, seed):
     for k, v in SHAPES.items():
         # all-missing slices: lead time 6 missing everywhere in file a, location 11 in file b
         write_file(os.path.join(tmp, "%s_a.txt" % k), rng, blank=(1, 6) if k == "miss" else ((1, 0) if k == "missfirst" else None), **v)
-        vb = dict(v, prob=False, ens=False) if k == "mixed" else v
+        vb = dict(v, prob=False, ens=False) if k == "mixed" else (dict(v, noobs=True) if k == "x0noobs" else v)
         write_file(os.path.join(tmp, "%s_b.txt" % k), rng, blank=(2, 11) if k == "miss" else ((2, 10) if k == "missfirst" else None), **vb)
         write_file(os.path.join(tmp, "%s_c.txt" % k), rng, blank=(0, 1325376000) if k == "missfirst" else None, **v)
 
@@ -200,7 +207,7 @@ def _explore(out, tier, seed, facts, replay, tmp):
         for s in SHAPES:
             jobs.add((s, n, None, rng.choice(["plot", "text", "csv"]), ()))
         for v in VARIANTS[1:]:
-            jobs.add(("full", n, rng.choice(AXES), rng.choice(["plot", "text", "csv"]), tuple(v)))
+            jobs.add(("full", n, rng.choice(AXES), "plot" if (n in os_ and n not in ms) else rng.choice(["plot", "text", "csv"]), tuple(v)))
     for s in SHAPES:
         for ty in TYPES:
             for ax in AXES:
@@ -243,6 +250,7 @@ def _explore(out, tier, seed, facts, replay, tmp):
     for n in names:
         jobs.add(("mixed", n, None, "text", ()))
         jobs.add(("mixed", n, None, "plot", ()))
+        jobs.add(("x0noobs", n, None, "plot" if (n in os_ and n not in ms) else "text", ()))
     jobs = sorted(jobs, key=lambda j: (j[0], j[1], j[2] or "", j[3], j[4], j[5:]))
     rng.shuffle(jobs)
     counts = {"ok": 0, "exit": 0, "exception": 0, "silent-exit": 0}
